@@ -88,7 +88,7 @@ var ctorFacet = harness.Register(&harness.Facet[ctorCase]{
 	Name:     "constructor-isArray",
 	Rule:     "rapid: Array(...)/new Array(...) with 0–3 arguments and Array.isArray with 0–2 arguments from {small integers, -0, negative, fractional, NaN, ±Infinity, 2^31, 2^32-2, 2^32-1, 2^32, 1e21, numeric strings, undefined, null, booleans, valueOf/toString objects (must not be converted), plain objects, an array, an array-like, Array.prototype, Object.prototype, the global object}, plus Array.isArray(arguments); compared with 15.4.1/15.4.2/15.4.3.2 (single numeric argument: length or RangeError; otherwise elements): value with all own properties, thrown class, conversion log (must stay empty); non-trivial = an argument is not a small non-negative integer; distinct by the whole case",
 	Quick:    3000,
-	Thorough: 15000,
+	Thorough: 10000,
 	Gen: func(t *rapid.T) ctorCase {
 		c := ctorCase{Env: genEnv(t, true)}
 		c.Recv.Len = nil
